@@ -61,9 +61,26 @@ theorem pick_small_cs (S : Nat → ℝ) (sb dk : ℝ) (lo hi sm : Nat) (hsb : 0 
   · simp only [hf, decide_false]
     exact Pf.gmdCS_spec sb dk (S sm) hsb (Or.inl ⟨(Spos sm hsm).le, not_le.mp hf, hge⟩)
 
-/-- branch `d[k] < σ̄` (partner = largest remaining value `S lg`): the `flag` case
-    `S lg ≤ σ̄` contradicts the product invariant, so the rotation is always performed and its
-    parameters satisfy the two identities -/
+/-- branch `d[k] < σ̄`: the `flag` case `S lg ≤ σ̄` (largest remaining value not above `σ̄`)
+    contradicts the product invariant -/
+theorem pick_large_flag_never (S : Nat → ℝ) (sb dk : ℝ) (lo hi lg : Nat) (hsb : 0 < sb)
+    (Spos : ∀ r ∈ Finset.Ico lo hi, 0 < S r) (hmax : ∀ r ∈ Finset.Ico lo hi, S r ≤ S lg)
+    (hprod : dk * ∏ r ∈ Finset.Ico lo hi, S r = sb ^ (hi - lo + 1)) (hlt : dk < sb) :
+    ¬ S lg ≤ sb := by
+  intro hf
+  have h1 : ∏ r ∈ Finset.Ico lo hi, S r ≤ sb ^ (hi - lo) :=
+    prod_Ico_le_pow S sb lo hi (fun r hr => (Spos r hr).le) (fun r hr => le_trans (hmax r hr) hf)
+  have hpos : 0 < ∏ r ∈ Finset.Ico lo hi, S r := Finset.prod_pos Spos
+  have : dk * ∏ r ∈ Finset.Ico lo hi, S r < sb * sb ^ (hi - lo) :=
+    calc dk * ∏ r ∈ Finset.Ico lo hi, S r < sb * ∏ r ∈ Finset.Ico lo hi, S r :=
+          mul_lt_mul_of_pos_right hlt hpos
+      _ ≤ sb * sb ^ (hi - lo) := mul_le_mul_of_nonneg_left h1 hsb.le
+  rw [hprod] at this
+  have e : sb ^ (hi - lo + 1) = sb * sb ^ (hi - lo) := by ring
+  linarith
+
+/-- branch `d[k] < σ̄` (partner = largest remaining value `S lg`): the rotation is always
+    performed (`pick_large_flag_never`) and its parameters satisfy the two identities -/
 theorem pick_large_cs (S : Nat → ℝ) (sb dk : ℝ) (lo hi lg : Nat) (hsb : 0 < sb) (hdk : 0 < dk)
     (Spos : ∀ r ∈ Finset.Ico lo hi, 0 < S r) (hmax : ∀ r ∈ Finset.Ico lo hi, S r ≤ S lg)
     (hlg : lg ∈ Finset.Ico lo hi)
@@ -71,18 +88,7 @@ theorem pick_large_cs (S : Nat → ℝ) (sb dk : ℝ) (lo hi lg : Nat) (hsb : 0 
     (gmdCS (decide (S lg ≤ sb)) sb dk (S lg)).1 ^ 2 + (gmdCS (decide (S lg ≤ sb)) sb dk (S lg)).2 ^ 2 = 1 ∧
     (gmdCS (decide (S lg ≤ sb)) sb dk (S lg)).1 ^ 2 * dk ^ 2 +
       (gmdCS (decide (S lg ≤ sb)) sb dk (S lg)).2 ^ 2 * S lg ^ 2 = sb ^ 2 := by
-  have hf : ¬ S lg ≤ sb := by
-    intro hf
-    have h1 : ∏ r ∈ Finset.Ico lo hi, S r ≤ sb ^ (hi - lo) :=
-      prod_Ico_le_pow S sb lo hi (fun r hr => (Spos r hr).le) (fun r hr => le_trans (hmax r hr) hf)
-    have hpos : 0 < ∏ r ∈ Finset.Ico lo hi, S r := Finset.prod_pos Spos
-    have : dk * ∏ r ∈ Finset.Ico lo hi, S r < sb * sb ^ (hi - lo) :=
-      calc dk * ∏ r ∈ Finset.Ico lo hi, S r < sb * ∏ r ∈ Finset.Ico lo hi, S r :=
-            mul_lt_mul_of_pos_right hlt hpos
-        _ ≤ sb * sb ^ (hi - lo) := mul_le_mul_of_nonneg_left h1 hsb.le
-    rw [hprod] at this
-    have e : sb ^ (hi - lo + 1) = sb * sb ^ (hi - lo) := by ring
-    linarith
+  have hf := pick_large_flag_never S sb dk lo hi lg hsb Spos hmax hprod hlt
   simp only [hf, decide_false]
   exact Pf.gmdCS_spec sb dk (S lg) hsb (Or.inr ⟨hdk.le, hlt, (not_le.mp hf).le⟩)
 
